@@ -256,8 +256,9 @@ def load_known():
 class Family:
     """One harness family run for a property."""
 
-    def __init__(self, name, rtol=None, atol_scale=0.0, args=None, thorough_only=False, compare=True):
+    def __init__(self, name, rtol=None, atol_scale=0.0, args=None, thorough_only=False, compare=True, label=None):
         self.name = name
+        self.label = label or name   # several runs of one family (e.g. K at two tolerances) need distinct labels
         self.rtol = rtol
         self.atol_scale = atol_scale
         self.args = args or []
@@ -281,7 +282,7 @@ class Check:
 
     # -------------------------------------------------------------------------------------
     def run_family(self, harness, fam, seed, tier, workdir, replay=None):
-        d = os.path.join(workdir, fam.name)
+        d = os.path.join(workdir, fam.label)
         os.makedirs(d, exist_ok=True)
         cmd = [harness, "gen", fam.name, "-seed", str(seed), "-tier", tier, "-dir", d]
         if replay:
@@ -289,7 +290,7 @@ class Check:
         cmd += fam.args
         t0 = time.time()
         r = run(cmd, cwd=d, env=dict(GOENV, GOMEMLIMIT="6GiB", OW_HARNESS=harness))
-        res = {"family": fam.name, "gen_s": round(time.time() - t0, 2)}
+        res = {"family": fam.label, "fam_name": fam.name, "gen_s": round(time.time() - t0, 2)}
         if r.returncode != 0:
             res["harness_error"] = (r.stderr or "")[-3000:]
             return res
@@ -398,14 +399,18 @@ class Check:
         exhaustive = None
         rules = []
         replay_lines = None
+        replay_family = None
         if replay:
             rp = json.load(open(replay))
             replay_lines = rp.get("ops", [])
+            replay_family = rp.get("family")
         for fam in self.families:
             if fam.thorough_only and tier != "thorough":
                 continue
             rfile = None
             if replay_lines is not None:
+                if replay_family and fam.label != replay_family:
+                    continue
                 mine = [l for l in replay_lines if l.split()[0] == fam.name]
                 if not mine:
                     continue
@@ -421,23 +426,23 @@ class Check:
             evaluations += st["cases"]
             distinct += st["distinct_nontrivial"]
             samples += st.get("samples") or []
-            rules.append("%s: %s" % (fam.name, st.get("rule", "")))
+            rules.append("%s: %s" % (fam.label, st.get("rule", "")))
             for k, v in (st.get("hist") or {}).items():
-                hist[fam.name + ":" + k] = v
+                hist[fam.label + ":" + k] = v
             if st.get("exhaustive"):
                 exhaustive = True if exhaustive is None else exhaustive
             else:
                 exhaustive = False
             for of in st.get("oracle_failures") or []:
-                of["family"] = fam.name
+                of["family"] = fam.label
                 oracle_failures.append(of)
             if fam.compare:
                 c = fr["cmp"]
                 for k, v in c["tags"].items():
-                    tags[fam.name + ":" + k] = v
+                    tags[fam.label + ":" + k] = v
                 if c["mismatches"]:
-                    problems.append({"kind": "correspondence", "name": "model≠implementation on family " + fam.name,
-                                     "detail": c["detail"][:5], "count": c["mismatches"], "family": fam.name})
+                    problems.append({"kind": "correspondence", "name": "model≠implementation on family " + fam.label,
+                                     "detail": c["detail"][:5], "count": c["mismatches"], "family": fam.label})
 
         # 6. verdict
         known = [k for k in load_known() if k.get("property") == pid]
@@ -525,18 +530,18 @@ class Check:
         (thorough-size generators, several seeds) for an input on which the property itself fails."""
         budget_end = time.time() + float(os.environ.get("VERIF_WIDEN_S", "240"))
         broken = [fr["family"] for fr in fam_results if fr.get("cmp", {}).get("mismatches")]
-        fams = [f for f in self.families if f.name in broken] or self.families
+        fams = [f for f in self.families if f.label in broken] or self.families
         for s in (seed, seed + 1, seed + 2):
             for fam in fams:
                 if time.time() > budget_end:
                     return None
                 wd = os.path.join(workdir, "widen-%d" % s)
-                fr = self.run_family(harness, Family(fam.name, fam.rtol, fam.atol_scale, fam.args, compare=False), s, "thorough", wd)
+                fr = self.run_family(harness, Family(fam.name, fam.rtol, fam.atol_scale, fam.args, compare=False, label=fam.label), s, "thorough", wd)
                 if "stats" not in fr:
                     continue
                 for of in fr["stats"].get("oracle_failures") or []:
                     if not any(k.get("scope") == of["scope"] for k in known_open):
-                        of["family"] = fam.name
+                        of["family"] = fam.label
                         of["found_by"] = "widened search seed=%d tier=thorough" % s
                         return of
         return None
@@ -549,13 +554,14 @@ class Check:
               "broken": [{"kind": p["kind"], "name": p["name"], "detail": p.get("detail")} for p in problems]}
         if of is not None:
             rp["oracle"] = of
+            rp["family"] = of.get("family")
             rp["ops"] = [of["op"]] if of.get("op") else []
         else:
             ops = []
             for fr in fam_results:
                 if fr.get("cmp", {}).get("mismatches"):
                     ids = {str(x["case"]) for x in fr["cmp"]["detail"]}
-                    opsf = os.path.join(workdir, fr["family"], fr["family"] + ".ops")
+                    opsf = os.path.join(workdir, fr["family"], fr["fam_name"] + ".ops")
                     if os.path.exists(opsf):
                         for line in open(opsf):
                             t = line.split(None, 2)
@@ -564,6 +570,7 @@ class Check:
                                 if len(ops) >= 10:
                                     break
             rp["ops"] = ops
+            rp["family"] = next((fr["family"] for fr in fam_results if fr.get("cmp", {}).get("mismatches")), None)
             rp["note"] = ("no input violating the property itself was found; the listed theorem(s)/correspondence no longer "
                           "check, so the property is no longer shown to hold for the current tree")
         with open(path, "w") as f:
